@@ -24,7 +24,7 @@ CONSTANTS
 INVARIANTS Conforms
 """
 BIN = {"cli": "cmd/go-critic", "twin": "cmd/gocritic", "analysis": "cmd/go-critic-analysis", "twin-analysis": "cmd/gocritic-analysis"}
-KEYWORD = {"badGoVersion": "version", "unknownFailOn": "failOn", "noMatchPattern": "no file matching", "emptySelection": "empty",
+KEYWORD = {"badGoVersion": "version", "unknownFailOn": "failOn", "unknownFailOnLegacy": "failOn", "noMatchPattern": "no file matching", "emptySelection": "empty",
            "badParamValue": "invalid value", "unknownFlag": "flag provided but not defined"}
 DIAG = re.compile(r"^\S+\.go:\d+:\d+: \w+: ")
 CRASH = re.compile(r"panic:|goroutine \d+ \[|SIGSEGV|fatal error:")
@@ -37,13 +37,15 @@ def args_for(fe, cls, rules):
         "badGoVersion": ["-go=abc"],
         # ruleguard together with checkers that sort before and after it: one failing constructor must stop the run
         "unknownFailOn": ["-enable=dupCase,assignOp,elseif,ruleguard,sloppyLen", "-@ruleguard.rules=" + rules, "-@ruleguard.failOn=bogus"],
+        # an invalid value next to the deprecated boolean spelling of the same setting: neither may mask the other
+        "unknownFailOnLegacy": ["-enable=dupCase,assignOp,elseif,ruleguard,sloppyLen", "-@ruleguard.rules=" + rules, "-@ruleguard.failOn=bogus", "-@ruleguard.failOnError=true"],
         "noMatchPattern": ["-enable=dupCase,assignOp,elseif,ruleguard,sloppyLen", "-@ruleguard.rules=" + rules + ",/nonexistent/verif-*.go"],
         "emptySelection": ["-enable=noSuchChecker"],
         "badParamValue": ["-@hugeParam.sizeThreshold=abc"],
         "unknownFlag": ["-noSuchFlagAtAll"],
     }[cls]
     if not cli:
-        a = a + ["-disable="] if cls in ("valid", "unknownFailOn", "noMatchPattern", "emptySelection") else a
+        a = a + ["-disable="] if cls in ("valid", "unknownFailOn", "unknownFailOnLegacy", "noMatchPattern", "emptySelection") else a
         return a
     return ["check"] + a
 
@@ -60,8 +62,8 @@ def run(ctx):
         design["whatif_" + name] = r.violated
     design["analyzer"] = ac.design(ctx)
     states = [s for s in vlib.parse_dump(ctx.spec_path(dump + ".dump")) if s["pc"] == "done"]
-    if len(states) != 84:
-        raise vlib.Infra("expected 84 terminal cases from ConfigErrors, got %d" % len(states))
+    if len(states) != 96:
+        raise vlib.Infra("expected 96 terminal cases from ConfigErrors, got %d" % len(states))
 
     w = wsmod.make(ctx, "ws_c19", 3, pick=["dupCase", "assignOp", "elseif"], dsl=True)
     rules = os.path.join(vlib.REPO, "checkers", "testdata", "_integration", "ruleguard", "rules.go")
